@@ -1264,22 +1264,22 @@ class DeterministicOde(BaseOdeModel):
         outJ = np.kron(np.eye(self.num_param), J)
         # Jacobian of the gradient
         GJ = self.grad_jacobian(state, t)
+        if by_state:
+            # the sensitivities arrive arranged by state, everything below
+            # is evaluated in the arrangement by parameters and permuted back
+            S = np.reshape(state_param[self.num_state::], (self.num_state, self.num_param))
+            state_param = np.append(state, self._SAUtil.matToVecSens(S))
+
         # and now we add the gradient
         sensJacobianOfState = GJ + self.sens_jacobian_state(state_param, t)
 
         if by_state:
-            arrangeVector = np.zeros(self.num_state * self.num_param)
-            k = 0
-            for j in range(0, self.num_param):
-                for i in range(0, self.num_state):
-                    if i == 0:
-                        arrangeVector[k] = (i*self.num_state) + j
-                    else:
-                        arrangeVector[k] = (i*(self.num_state - 1)) + j
-                    k += 1
-
-            outJ = outJ[np.array(arrangeVector,int),:]
-            idx = np.array(arrangeVector, int)
+            # position in the by parameter vector of element (state i, param j),
+            # listed in the by state order
+            idx = np.array([j*self.num_state + i
+                            for i in range(self.num_state)
+                            for j in range(self.num_param)], int)
+            outJ = outJ[idx,:][:,idx]
             sensJacobianOfState = sensJacobianOfState[idx,:]
         # The Jacobian of the ode, then the sensitivities w.r.t state and
         # the sensitivities. In block form.  Theoretically, only the diagonal
